@@ -18,7 +18,6 @@ MODEL_CONSTS = {"KB": 1000, "MB": 10 ** 6, "GB": 10 ** 9, "DefaultBurstSize": 48
                 "sliceMeterGateUnmeter": 6, "farForwardU": 1, "farForwardD": 0, "StatusCreated": 201,
                 "StatusBadRequest": 400, "StatusMethodNotAllowed": 405, "upfMsgTypeAdd": 0, "idx_15_3": 63}
 QOS_TYPE = "type.googleapis.com/bess.pb.QosCommandAddArg"
-SIG_UP4_BURST = "up4:pburst-negative:burst>=2^63"
 
 
 def factor(unit):
@@ -293,6 +292,93 @@ def gen_cases(rng, tier):
     return cases
 
 
+def seq_req(method, name, ul, dl, unit, ulb, dlb, refuse=False, label="doc"):
+    qos = [("uplinkMbr", ul), ("downlinkMbr", dl), ("bitrateUnit", unit), ("uplinkBurstSize", ulb), ("downlinkBurstSize", dlb)]
+    body = render([("sliceName", name), ("sliceQos", qos)]).encode()
+    return {"method": method, "body_b64": base64.b64encode(body).decode(), "fail_after": -1, "refuse": refuse, "cls": "valid",
+            "doc": doc_of(name, ul, dl, unit, ulb, dlb, []), "label": label}
+
+
+def seq_bad(rng, kind):
+    """a request that must change nothing: malformed body, unreadable body, or another method"""
+    good = seq_req("POST", "x", rng.randrange(1, 999), rng.randrange(1, 999), "Mbps", 11, 22)
+    if kind == "malformed":
+        body = rng.choice([b"", b"{", b'{"sliceQos":{"uplinkMbr":"5"}}', b'{"sliceQos":{"uplinkMbr":-1}}', b"[]", b"hello",
+                           base64.b64decode(good["body_b64"])[:-3], base64.b64decode(good["body_b64"]) + b" x"])
+        return dict(good, method=rng.choice(["PUT", "POST"]), body_b64=base64.b64encode(body).decode(), cls="malformed", doc=None, label="malformed")
+    if kind == "unreadable":
+        return dict(good, method=rng.choice(["PUT", "POST"]), fail_after=rng.randrange(0, 40), cls="unreadable", doc=None, label="unreadable")
+    return dict(good, method=rng.choice(["GET", "DELETE", "PATCH", "HEAD", "put", "OPTIONS"]), label="other-method")
+
+
+def same_product(rng):
+    """(rate, unit) pairs with equal rate*unit, all fitting in 63 bits"""
+    base = rng.randrange(1, 9000)
+    return rng.sample([(base * 10 ** 9, "bps"), (base * 10 ** 6, "Kbps"), (base * 1000, "Mbps"), (base, "Gbps")], 2)
+
+
+def gen_seqs(rng, tier):
+    """histories of 2-4 requests against ONE handler + upf + datapath plug-in"""
+    thorough = tier != "quick"
+    seqs = []
+    M = lambda: rng.choice(["PUT", "POST"])
+    B = lambda: rng.randrange(1, 1 << 24)
+    for rep in range(2 if not thorough else 12):
+        for dp in [("bess", 0, 0), ("up4", rng.randrange(16), rng.randrange(4))]:
+            def add(label, reqs):
+                seqs.append({"dp": dp[0], "slice": dp[1], "tc": dp[2], "label": label, "reqs": reqs})
+            name = rand_name(rng, 1, 8)
+            unit = rng.choice(KNOWN_UNITS)
+            ul, dl = rng.randrange(1, 9000), rng.randrange(1, 9000)
+            if rep % 2:
+                dl = ul                                  # UP4: equal rates, the tie case
+            b1, b2, b3, b4 = B(), B(), B(), B()
+            A = lambda **k: seq_req(M(), k.get("name", name), k.get("ul", ul), k.get("dl", dl), k.get("unit", unit),
+                                    k.get("ulb", b1), k.get("dlb", b2), refuse=k.get("refuse", False))
+            add("new-bursts", [A(), A(ulb=b3, dlb=b4)])
+            add("new-ul-burst", [A(), A(ulb=b3)])
+            add("new-dl-burst", [A(), A(dlb=b4), A(dlb=b3)])
+            (r1, u1), (r2, u2) = same_product(rng)
+            add("other-unit-new-bursts", [A(ul=r1, dl=r1, unit=u1), A(ul=r2, dl=r2, unit=u2, ulb=b3, dlb=b4)])
+            add("other-unit-same-bursts", [A(ul=r1, dl=r1, unit=u1), A(ul=r2, dl=r2, unit=u2)])
+            add("exact-repost", [A(), A()])
+            add("exact-repost-3", [A(), A(), A(ulb=b4)])
+            add("new-name", [A(), A(name=name + "2"), A(name=name + "2", dlb=b3)])
+            add("refused-then-retry", [A(refuse=True), A()])
+            add("refused-twice-then-retry", [A(refuse=True), A(refuse=True), A(), A(ulb=b3)])
+            add("good-refused-other-retry", [A(), A(ul=ul + 1, refuse=True), A(ul=ul + 1)])
+            add("good-refused-same-retry", [A(), A(ulb=b3, refuse=True), A(ulb=b3)])
+            add("interleaved-bad", [A(), seq_bad(rng, "malformed"), seq_bad(rng, "other"), A(ulb=b3, dlb=b4)])
+            add("interleaved-unreadable", [A(), seq_bad(rng, "unreadable"), A()])
+            add("bad-first", [seq_bad(rng, "malformed"), A(), seq_bad(rng, "other"), A(dlb=b4)])
+            add("only-bad", [seq_bad(rng, "other"), seq_bad(rng, "unreadable"), seq_bad(rng, "malformed")])
+            add("A-B-A", [A(), A(ul=ul + 7, dl=dl + 3), A()])
+            add("zero-then-same", [A(ul=0, dl=0, unit="bps"), A(ul=0, dl=0, unit="bps", ulb=b3)])
+    for _ in range(120 if not thorough else 1500):
+        dp = rand_dp(rng, 0)
+        name = rand_name(rng, 1, 6)
+        rates = [rng.randrange(1, 6) * 1000, rng.randrange(1, 5000)]     # Mbps; the first can be respelled in Gbps
+        bursts = [B() for _ in range(3)]
+        reqs = []
+        for _ in range(rng.randrange(2, 5)):
+            r = rng.random()
+            if r < 0.72:
+                k = rng.choice(rates)
+                if rng.random() < 0.4 and k % 1000 == 0:
+                    ulv, unit = k // 1000, "Gbps"
+                elif rng.random() < 0.4:
+                    ulv, unit = k * 1000, "Kbps"
+                else:
+                    ulv, unit = k, "Mbps"
+                dlv = ulv if rng.random() < 0.6 else rng.choice(rates) * {"Gbps": 1, "Kbps": 1000, "Mbps": 1}[unit]
+                reqs.append(seq_req(M(), name if rng.random() < 0.85 else name + "b", ulv, dlv, unit, rng.choice(bursts), rng.choice(bursts),
+                                    refuse=rng.random() < 0.2))
+            else:
+                reqs.append(seq_bad(rng, rng.choice(["malformed", "unreadable", "other"])))
+        seqs.append({"dp": dp[0], "slice": dp[1], "tc": dp[2], "label": "random", "reqs": reqs})
+    return seqs
+
+
 # --------------------------------------------------------------------------- the property on the implementation's observation
 def conv(rate, unit):
     """converted rate the property demands, or None where it demands nothing (rate 0, overflow, unknown unit string)"""
@@ -368,11 +454,11 @@ def monitor(c, o, meter_id):
         return None
     if x["pir"] != max(cu, cd):
         return ("up4:rate", f"pir {x['pir']} != max of converted rates {cu}, {cd}")
+    # P4Runtime's pburst is an int64: a posted burst >= 2^63 can only be carried saturated at 2^63-1
     allowed = {d["ulb"]} if cu > cd else ({d["dlb"]} if cd > cu else {d["ulb"], d["dlb"]})
+    allowed = {min(b, M63 - 1) for b in allowed}
     if x["pburst"] not in allowed:
-        if x["pburst"] < 0 and (x["pburst"] + M64) in allowed:
-            return (SIG_UP4_BURST, f"posted burst {x['pburst'] + M64} reaches MeterConfig.pburst as {x['pburst']}")
-        return ("up4:burst", f"pburst {x['pburst']} is not the posted burst of the larger side {sorted(allowed)}")
+        return ("up4:burst", f"pburst {x['pburst']} is not the posted burst of the larger side {sorted(allowed)} (saturated at 2^63-1)")
     return None
 
 
@@ -385,16 +471,18 @@ def gZ(z):
     return f"({int(z)})%Z"
 
 
-def to_coq(c, o):
-    dp = "Bess" if c["dp"] == "bess" else f"(Up4 {c['slice']} {c['tc']})"
+def coq_body(c):
     if c["cls"] == "unreadable":
-        body = "Unreadable"
-    elif c["cls"] == "malformed":
-        body = "Malformed"
-    else:
-        d = c["doc"]
-        body = (f"(Decoded (Doc {gstr(d['name'])} {d['ul']} {d['dl']} {gstr(d['unit'])} {d['ulb']} {d['dlb']} "
-                f"{coq_pairs(d['ue'])}))")
+        return "Unreadable"
+    if c["cls"] == "malformed":
+        return "Malformed"
+    d = c["doc"]
+    return (f"(Decoded (Doc {gstr(d['name'])} {d['ul']} {d['dl']} {gstr(d['unit'])} {d['ulb']} {d['dlb']} "
+            f"{coq_pairs(d['ue'])}))")
+
+
+def coq_writes(o):
+    """everything the datapath servers received, in order (whether they accepted or refused it)"""
     writes = []
     for x in o["bess"]:
         ded = x["deduct"] if x["has_deduct"] and x["deduct"] >= 0 else 999999
@@ -406,10 +494,27 @@ def to_coq(c, o):
         upd = x["update"] if x["kind"] == "meter" and x["device"] == 1 else 999
         idx = x["index"] if x["has_index"] else -999
         writes.append(f"WUp4 (MeterWrite {upd} {x['meter_id']} {gZ(idx)} {gZ(x['cir'])} {gZ(x['cburst'])} {gZ(x['pir'])} {gZ(x['pburst'])})")
-    s = o["stored"]
-    stored = "None" if s is None else (f"(Some (SliceInfo {gstr(s['name'])} {s['ul']} {s['dl']} {s['ulb']} {s['dlb']} "
-                                       f"{coq_pairs(s['ue'])}))")
-    return (f"Case {dp} {gstr(c['method'])} {body} {glist([str(x) for x in o['statuses']])} {glist(writes)} {stored}")
+    return glist(writes)
+
+
+def coq_stored(s):
+    return "None" if s is None else (f"(Some (SliceInfo {gstr(s['name'])} {s['ul']} {s['dl']} {s['ulb']} {s['dlb']} "
+                                     f"{coq_pairs(s['ue'])}))")
+
+
+def coq_dp(c):
+    return "Bess" if c["dp"] == "bess" else f"(Up4 {c['slice']} {c['tc']})"
+
+
+def to_coq(c, o):
+    return (f"Case {coq_dp(c)} {gstr(c['method'])} {coq_body(c)} {glist([str(x) for x in o['statuses']])} {coq_writes(o)} "
+            f"{coq_stored(o['stored'])}")
+
+
+def seq_to_coq(q, so):
+    steps = [f"Step {gstr(r['method'])} {coq_body(r)} {glist([str(x) for x in o['statuses']])} {coq_writes(o)} {coq_stored(o['stored'])}"
+             for r, o in zip(q["reqs"], so["steps"])]
+    return f"SeqCase {coq_dp(q)} {glist(steps)} {coq_stored(so['final'])}"
 
 
 def rle(vals):
@@ -484,7 +589,11 @@ def run(tier, seed, replay=None):
                "non-trivial = PUT/POST that is either refused (unreadable/malformed) or accepted with at least one rate the property speaks about")
     ck.prove(TARGETS)
     rng = rng_for(seed, "C19")
-    cases = gen_cases(rng, tier) if replay is None else [json.load(open(replay))["case"]["input"]]
+    if replay is None:
+        cases, seqs = gen_cases(rng, tier), gen_seqs(rng, tier)
+    else:
+        rin = json.load(open(replay))["case"]["input"]
+        cases, seqs = ([], [rin]) if "reqs" in rin else ([rin], [])
     meter_id = p4info_slice_meter_id()
     ck.tie("conf/p4/bin/p4info.txt names meter PreQosPipe.slice_tc_meter with the id the model uses (336833095)", meter_id == 336833095,
            f"found {meter_id}")
@@ -492,12 +601,15 @@ def run(tier, seed, replay=None):
         binary = build_harness()
         inputs = [{k: c[k] for k in ("dp", "slice", "tc", "method", "body_b64", "fail_after")} for c in cases]
         obs = run_harness(binary, "c19", inputs)
+        seq_inputs = [{"dp": q["dp"], "slice": q["slice"], "tc": q["tc"],
+                       "reqs": [{k: r[k] for k in ("method", "body_b64", "fail_after", "refuse")} for r in q["reqs"]]} for q in seqs]
+        seq_obs = run_harness(binary, "c19_seq", seq_inputs, tag="c19_seq")
         unit = run_harness(binary, "c19_unit", [{}], tag="c19_unit")[0]
     except HarnessError as e:
         ck.tie("harness builds and runs against the current tree", False, str(e)[-1500:])
         return ck.finish()
-    ck.tie("harness builds and runs against the current tree", "harness_error" not in unit and not any("harness_error" in o for o in obs),
-           str([o for o in obs + [unit] if "harness_error" in o][:1]))
+    ck.tie("harness builds and runs against the current tree", "harness_error" not in unit and not any("harness_error" in o for o in obs + seq_obs),
+           str([o for o in obs + seq_obs + [unit] if "harness_error" in o][:1]))
     obs = [o if "harness_error" not in o else None for o in obs]
 
     # named constants of the Go package = the model's
@@ -519,6 +631,7 @@ def run(tier, seed, replay=None):
 
     dist, outcome = {}, {}
     kept = []
+    bad_seq_decode = []
     slow = 0
     for c, o in zip(cases, obs):
         if o is None:
@@ -537,12 +650,43 @@ def run(tier, seed, replay=None):
             ck.fail(m[0], m[1], {"input": c, "body": base64.b64decode(c["body_b64"]).decode("latin-1"), "impl": o})
         if not o.get("panic"):
             kept.append((c, o))
+    # histories: the property on EVERY request of the sequence - each request is judged on what IT posted,
+    # whatever preceded it on the same handler / upf / datapath (repeated rates, new bursts, another spelling of
+    # the unit, a refused first attempt, malformed and other-method requests in between)
+    seq_kept = []
+    seq_dist = {}
+    for q, so in zip(seqs, seq_obs):
+        if "harness_error" in so or len(so.get("steps", [])) != len(q["reqs"]):
+            continue
+        nt = False
+        panicked = False
+        for i, (r, o) in enumerate(zip(q["reqs"], so["steps"])):
+            c = dict(r, dp=q["dp"], slice=q["slice"], tc=q["tc"])
+            ck.evaluations += 1
+            nt = nt or (i > 0 and r["cls"] == "valid" and r["method"] in ("PUT", "POST"))
+            m = monitor(c, o, meter_id)
+            if m:
+                sig = "history:" + m[0]
+                ck.fail(sig, f"request {i + 1} of a history of {len(q['reqs'])} on one handler ({q['label']}): " + m[1],
+                        {"input": q, "failing_request": i + 1,
+                         "bodies": [base64.b64decode(x["body_b64"]).decode("latin-1") for x in q["reqs"]], "impl": so})
+            if not decode_agrees(c, o):
+                bad_seq_decode.append(c)
+            panicked = panicked or bool(o.get("panic"))
+            slow += 1 if so.get("attempts", 1) > 1 and i == 0 else 0
+        ck.count([q["dp"], q["slice"], q["tc"], [[r["method"], r["body_b64"], r["fail_after"], r["refuse"]] for r in q["reqs"]]], nt)
+        seq_dist[q["label"]] = seq_dist.get(q["label"], 0) + 1
+        # the meter after the history = what the last accepted, not refused request sent (derived; recorded for the evidence)
+        if not panicked:
+            seq_kept.append((q, so))
     ck.distribution = {"model_branches": dict(sorted(dist.items())), "outcomes": dict(sorted(outcome.items())),
+                       "histories": dict(sorted(seq_dist.items())),
+                       "history_requests": sum(len(q["reqs"]) for q in seqs),
                        "requests_repeated_because_slow": slow}
     ck.notes["content_type_observation"] = sorted(set((o["ct_at_header"], o["ct_final"]) for c, o in kept))[:4]
-    ck.samples = [{"input": c, "impl": o} for c, o in (kept[:1] + kept[-2:])]
+    ck.samples = [{"input": c, "impl": o} for c, o in (kept[:1] + kept[-1:])] + [{"input": q, "impl": so} for q, so in seq_kept[:1]]
 
-    bad = [c for c, o in kept if not decode_agrees(c, o)]
+    bad = [c for c, o in kept if not decode_agrees(c, o)] + bad_seq_decode
     ck.tie("generator's decoded documents / malformed classification = json.Unmarshal into NetworkSlice on every body", not bad,
            f"{len(bad)} bodies, first: {bad[0]['label']} {base64.b64decode(bad[0]['body_b64'])[:200]!r}" if bad else "")
     name = "correspondence: statuses, datapath writes and stored slice info of the model = implementation on all requests"
@@ -552,6 +696,13 @@ def run(tier, seed, replay=None):
             ck.mismatch(f"model and implementation disagree on {kept[i][0]['label']} {kept[i][0]['method']} {kept[i][0]['dp']} doc={kept[i][0]['doc']}",
                         {"input": kept[i][0], "impl": kept[i][1]})
         ck.tie(name, not idx, f"{len(idx)} mismatching requests" if idx else "")
+        sidx = coq_eval_shards("C19s", HEADER, [seq_to_coq(q, so) for q, so in seq_kept], shard=25, expr="seq_mismatches cases",
+                               case_type="seq_case")
+        for i in sidx:
+            ck.mismatch(f"model and implementation disagree on a history ({seq_kept[i][0]['label']}, {seq_kept[i][0]['dp']})",
+                        {"input": seq_kept[i][0], "impl": seq_kept[i][1]})
+        ck.tie("correspondence: the stateful model (run from no stored slice) = implementation on every request of every history, "
+               "and on the final upf.sliceInfo", not sidx, f"{len(sidx)} mismatching histories" if sidx else "")
         # ... and the model of GetSliceTCMeterIndex on all 65536 pairs
         if len(index) == 65536:
             segs = rle(index)
